@@ -8,12 +8,13 @@ Import ListNotations.
 Open Scope string_scope.
 
 (* the constants recognised in source_ref.py on this run are the ones the theorems are about:
+   lines = src.split('\n') (only a newline ends a line, as in Python's line numbering),
    guard `lineno <= len(lines)`, accumulation `offset += len(lines[i]) + 1` over range(lineno - 1),
    length of lines[lineno - 1]; frame selection starts two frames up and walks while the frame
    belongs to the DSL package *)
 Theorem C19_code_constants :
   GenSourceRef.li_guard_le = true /\ GenSourceRef.li_plus = 1%Z /\ GenSourceRef.li_range_minus = 1%Z
-  /\ GenSourceRef.li_index_minus = 1%Z /\ GenSourceRef.li_split = "src.splitlines()"
+  /\ GenSourceRef.li_index_minus = 1%Z /\ GenSourceRef.li_split = "src.split('\n')"
   /\ GenSourceRef.bf_hops = 2%Z /\ GenSourceRef.bf_walks = true
   /\ GenSourceRef.bf_walk_pred = "_in_package(backend_frame.f_code.co_filename)"
   /\ GenSourceRef.sr_private_helpers = Tables.sr_private_helpers
@@ -36,6 +37,12 @@ Theorem C19_line_delimited : forall ls k, k < List.length ls ->
   e = String.length (join ls) \/ get e (join ls) = Some (ascii_of_nat 10).
 Proof. exact slice_end_delimited. Qed.
 Print Assumptions C19_line_delimited.
+
+(* ... and the lines are those of the text: splitting a text at its newlines and joining the pieces with
+   newlines gives the text back, for EVERY text (so the two theorems above speak about the embedded text itself) *)
+Theorem C19_lines_of_the_text : forall text, join (split_lines text) = text.
+Proof. exact join_split_lines. Qed.
+Print Assumptions C19_lines_of_the_text.
 
 (* for EVERY call stack: whatever number of DSL helper frames lie between the operator method
    and the user's statement, the selected frame is the user's *)
